@@ -73,6 +73,61 @@ def mutable_scenario(name: str, touch_first: bool) -> dict:
     return out
 
 
+def readonly_snapshot_scenario(name: str, snapshot_first: bool) -> dict:
+    """a mutable clone of `name`; with snapshot_first a read-only view of it is taken AND USED before the clone is
+    customised. The read-only view taken after the customisation must answer like the one of an identically customised
+    clone nobody took a snapshot of before."""
+    import pyoda_time as P
+    from pyoda_time._compatibility._culture_info import CultureInfo
+    from pyoda_time.text import LocalDatePattern, LocalTimePattern
+    ci = CultureInfo.get_culture_info(name).clone()
+    d, t = P.LocalDate(2024, 8, 15), P.LocalTime(15, 4, 5)
+    if snapshot_first:
+        r0 = CultureInfo.read_only(ci)
+        LocalDatePattern.create("d MMMM yyyy", r0).format(d)
+        LocalTimePattern.create("h:mm tt", r0).format(t)
+    dtf = ci.date_time_format
+    dtf.month_names = [f"mois{i}" for i in range(1, 13)] + [""]
+    dtf.pm_designator = "apres"
+    dtf.am_designator = "avant"
+    r1 = CultureInfo.read_only(ci)
+    out = {}
+    for cls, pt, v in ((LocalDatePattern, "d MMMM yyyy", d), (LocalTimePattern, "h:mm tt", t)):
+        pat = cls.create(pt, r1)
+        txt = pat.format(v)
+        out[pt] = [txt, bool(pat.parse(txt).success)]
+    return out
+
+
+NEAR_PATTERNS = [("time", "HH:mm", "HH:mm "), ("time", " HH:mm", "HH:mm"), ("time", "HH:mm", "hh:mm"), ("time", "H:mm", "h:mm"),
+                 ("date", "dd/MM/yyyy", "dd/MM/yyyy "), ("date", "dd MMM yyyy", "dd MMMM yyyy"), ("date", "d", "D"), ("date", "d", "d "),
+                 ("time", "t", "T"), ("time", "t", " t"), ("date", "yyyy-MM-dd", "yyyy-mm-dd"), ("time", "HH:mm:ss", "HH:mm:SS"),
+                 ("datetime", "g", "G"), ("datetime", "f", "F"), ("datetime", "yyyy-MM-dd HH:mm", "yyyy-MM-dd  HH:mm")]
+
+
+def near_pattern_answers(name: str, order: int) -> dict:
+    """pattern texts that differ only by what a cache key might normalise away (edge whitespace, case, doubled blanks),
+    created one after the other on the cached read-only culture `name`, in the given order; each answer =
+    (formatted text, parses back) or the creation error"""
+    import pyoda_time as P
+    from pyoda_time._compatibility._culture_info import CultureInfo
+    from pyoda_time import text as T
+    ci = CultureInfo.get_culture_info(name)
+    vals = {"time": (T.LocalTimePattern, P.LocalTime(13, 45, 7)), "date": (T.LocalDatePattern, P.LocalDate(2024, 8, 15)),
+            "datetime": (T.LocalDateTimePattern, P.LocalDateTime(2024, 8, 15, 13, 45, 7))}
+    out = {}
+    for ty, a, b in NEAR_PATTERNS:
+        cls, v = vals[ty]
+        for pt in ((a, b) if order == 0 else (b, a)):
+            try:
+                pat = cls.create(pt, ci)
+                txt = pat.format(v)
+                out[f"{ty}|{pt}"] = [txt, bool(pat.parse(txt).success), bool(pat.parse(txt.strip()).success)]
+            except Exception as e:  # noqa: BLE001
+                out[f"{ty}|{pt}"] = ["!" + type(e).__name__]
+    return out
+
+
 if __name__ == "__main__":
     # child mode: python c13_fmt.py <culture name or ''>  ->  JSON on stdout
     import os
@@ -81,4 +136,7 @@ if __name__ == "__main__":
         import icu  # noqa: F401
     except Exception:  # noqa: BLE001
         sys.path.insert(0, os.path.join(os.path.dirname(os.path.abspath(__file__)), "icu_stub"))
-    print(json.dumps(answers(sys.argv[1] if len(sys.argv) > 1 else ""), ensure_ascii=True, sort_keys=True))
+    if len(sys.argv) > 3 and sys.argv[1] == "near":
+        print(json.dumps(near_pattern_answers(sys.argv[2], int(sys.argv[3])), ensure_ascii=True, sort_keys=True))
+    else:
+        print(json.dumps(answers(sys.argv[1] if len(sys.argv) > 1 else ""), ensure_ascii=True, sort_keys=True))
